@@ -138,6 +138,14 @@ def _strings(v):
         yield v
 
 
+def acyclic(o):
+    try:
+        U.substitute_all_tolerant(o)
+        return True
+    except RecursionError:
+        return False
+
+
 def uncached(G, o):
     with labrea.cache.disabled():
         return observe(G.root.evaluate, copy.deepcopy(o))
@@ -222,8 +230,8 @@ def case(ctx, program, o, tag="random"):
                     idx = int(p.split(".")[1])
                     lst[idx] = "zz"
                     o2 = U.set_path(o, "L", lst)
-            if o2 == o:
-                continue
+            if o2 == o or not acyclic(o2):
+                continue  # (deleting a list element can turn '{L.0}' into a reference to itself)
             got2 = uncached(G, o2)
             ctx.evaluations += 1
             if got2 != got:
